@@ -362,6 +362,7 @@ def run(cx):
                                    f"tls-config-field-written/{owner_path(prog, b_)}", f"{b_.path} writes into a rustls config ({ty[:60]}) after building it", b_.path, b_.loc(i_))
         ob.floor(n, 20, "projection writes inspected in crate anemo")
         MUT = ("OnceLock", "OnceCell", "LazyLock", "Lazy<", "Mutex", "RwLock", "Atomic", "RefCell", "UnsafeCell", "DashMap")
+        check_builder_setters(ob, prog, "anemo::network::Builder", {"server_name": ("server_name", "server_name"), "alternate_server_name": ("alternate_server_name", "server_name")})
         statics = [p_ for p_, b_ in prog.bodies.items() if b_.crate == "anemo" and b_.kind.startswith("Static") and p_.startswith(("anemo::config", "anemo::crypto", "anemo::endpoint"))
                    and "__CALLSITE" not in p_ and any(k in b_.local_ty(0) for k in MUT)]          # (constant tables are fine; anything that can hold state is not)
         ob.require(not statics, "tls-state-in-static", f"process-wide state in the TLS / endpoint configuration code: {statics[:3]}", "anemo::config")
